@@ -1213,3 +1213,14 @@ def prog_spec_stdout(workdir, case):
     if not m:
         return None
     return bytes(int(x) for x in re.findall(r"(\d+)%N", m.group(1))) if "%N" in m.group(1) else bytes(int(x) for x in re.findall(r"\d+", m.group(1)))
+
+
+def prog_spec_nums(workdir, case):
+    """summary numbers of Program.program_spec for one Corr/C01p case, or None"""
+    import re
+    hdr = (vlib.COQ_PRINT_HDR + "From Coq Require Import String List ZArith NArith.\nImport ListNotations.\n"
+           "From S4.Corr Require Import C01p.\nOpen Scope N_scope.\nOpen Scope string_scope.\n")
+    text = hdr + "Definition c : spec_case := %s.\nEval vm_compute in (spec_nums c).\n" % case
+    rc, out = vlib.coq_eval_shards(workdir, [text])[0]
+    m = re.search(r"=\s*(\[.*?\])\s*:\s*list", out, flags=re.S) if rc == 0 else None
+    return [int(x) for x in re.findall(r"-?\d+", m.group(1).replace("%Z", ""))] if m else None
